@@ -1,4 +1,4 @@
-CONSTANTS PS = 4  PBits = 2  MaxAddr = 27  MaxRegions = 2  MaxKFrames = 2  WB = 4  MaxEarly = 0  MaxOps = 0
+CONSTANTS PS = 4  PBits = 2  MaxAddr = 23  MaxRegions = 2  MaxKFrames = 2  WB = 4  MaxEarly = 0  MaxOps = 0
   Family = "all"  AllowFree = FALSE  Mode = "boot"  Bug = ""  Emit = FALSE
   Props = {"C01", "C02", "C03"}
 CONSTANT HistMaps <- MCHistMaps
